@@ -34,6 +34,7 @@ REQUIRED_THEOREMS = ['unitmap_lookup', 'unitmap_listed', 'key_assembly_suffix', 
                      'nwu_suffix_span', 'nwu_prefix_span', 'nwu_result_text_is_slice', 'nwu_result_text_is_slice_full',
                      'nwu_relative_number_start', 'extract_then_parse_unit', 'select_no_conflict_identity',
                      'select_results_from_input', 'select_returns_partial', 'select_misaligned_raises',
+                     'extractPre_lockstep_returns',
                      'nwu_prefix_only_result', 'nwu_prefix_only_suppressed_witness', 'merged_result_text_is_slice']
 RULE = ('exhaustive over every (culture, model, prefix|suffix, unit, spelling) row of the tables wired into the registered '
         'NumberWithUnit models (first extractor/parser pair of each model) × numerals {7} (quick) or {7, 1,234, 0.5 in the '
@@ -418,7 +419,16 @@ def extractor_level(ctx, cfgs):
                     tasks.append((mt, cul, k, 'merged', q))
     # the negative witness of Props/C05 (`nwu_furthest_reach_counterexample`) is a statement about the function for an
     # arbitrary matcher; the shipped matchers cannot produce it, so it is replayed through the model only (below).
-    chunks = [tasks[i::64] for i in range(64)]
+    variant = uxrec.probe_variants()
+    ctx.extra['select_candidates_variant'] = ('unit_is_prefix filtered in lockstep with the ambiguity filters' if variant['lockstep']
+                                              else 'unit_is_prefix NOT filtered with the results (findings/nwu/'
+                                              'select-candidates-misaligned.diff not applied): %r -> %r' % (
+                                                  uxrec.PROBE_SELECT, variant['probe']))
+    if not variant['lockstep']:
+        ctx.notes.append('observation outside the property\'s quantifier (select-candidates-misaligned): %r makes '
+                         '_select_candidates raise IndexError, recognize_currency returns []; the model follows this variant '
+                         '(select_misaligned_raises)' % uxrec.PROBE_SELECT)
+    chunks = [({'lockstep': variant['lockstep']}, tasks[i::64]) for i in range(64)]
     with mp.Pool(min(16, os.cpu_count() or 4)) as pool_:
         results = pool_.map(uxrec.run_chunk, chunks)
     ops, metas = [], []
